@@ -22,14 +22,17 @@ theorem create_is_spectrum (cfg : SiteCfg) (hc : CfgOk cfg) (hnp : cfg.projectTo
     (hwf : ∀ r ∈ recs, RecWf cfg r) (hok : ∀ r ∈ recs, recOk cfg r = true) :
     ∃ scs sites skipped, createRun (α := α) cfg false recs = .ok (scs, sites, skipped) ∧
       IsSpectrumOf cfg.outShape (sitesOf cfg recs) scs := by
-  sorry
+  obtain ⟨scs, hrun, hlen, hcnt⟩ := C01.run_eq_spec (α := α) cfg hc hnp recs hwf hok
+  refine ⟨scs, _, _, hrun, hlen, sg_sitesOf_inB cfg hc.1 hnp recs hwf hok, fun k hk => ?_⟩
+  rw [hcnt k hk, sg_sitesOf_count cfg hnp recs hok k]
+  rfl
 
 /-- linear_stat (key lemma): any statistic that is a weighted sum over the cells of the spectrum is the sum of the
     weight over the sites. -/
 theorem linear_stat (shape : List Nat) (hpos : ∀ v ∈ shape, 0 < v) (ks : List (List Nat)) (x : List α)
     (h : IsSpectrumOf shape ks x) (w : List Nat → α) :
     ((List.range (size shape)).map (fun i => x.getD i 0 * w (indexFromFlat shape i))).sum = (ks.map w).sum := by
-  sorry
+  exact sg_linear_iff shape ks x h w
 
 /-- `ns` chromosomes per population ↔ axis lengths `ns + 1`. -/
 def shapeOf (ns : List Nat) : List Nat := ns.map (· + 1)
@@ -37,68 +40,68 @@ def shapeOf (ns : List Nat) : List Nat := ns.map (· + 1)
 /-- sum = the number of sites. -/
 theorem sum_def (ns : List Nat) (ks : List (List Nat)) (x : List α) (h : IsSpectrumOf (shapeOf ns) ks x) :
     sumList x = gSum ks := by
-  sorry
+  exact sg_sum _ ks x h
 
 /-- S = the number of sites that are polymorphic in the sample. -/
 theorem S_def (ns : List Nat) (hne : ns ≠ []) (hns : ∀ n ∈ ns, 0 < n) (ks : List (List Nat)) (x : List α)
     (h : IsSpectrumOf (shapeOf ns) ks x) :
     segregating x = gS ns ks := by
-  sorry
+  exact sg_S ns ks x h
 
 /-- A site with `k` ALT alleles among `n` chromosomes has `k (n - k)` differing pairs of chromosomes … -/
 theorem diffPairs_eq (c : List Bool) : diffPairs c = altCount c * (c.length - altCount c) := by
-  sorry
+  exact sg_diffPairs c
 
 /-- … and between two populations `k1 (n2 - k2) + k2 (n1 - k1)` differing pairs. -/
 theorem diffBetween_eq (c d : List Bool) :
     diffBetween c d = altCount c * (d.length - altCount d) + altCount d * (c.length - altCount c) := by
-  sorry
+  exact sg_diffBetween c d
 
 /-- pi = mean number of pairwise differences between the sampled chromosomes. -/
 theorem pi_def (n : Nat) (ks : List (List Nat)) (x : List α) (h : IsSpectrumOf [n + 1] ks x) :
     statPi x = gPi n (ks.map (fun k => k.getD 0 0)) := by
-  sorry
+  exact sg_pi n ks x h
 
 /-- pi_xy = mean number of differences between a chromosome of population 1 and one of population 2. -/
 theorem pixy_def (n1 n2 : Nat) (ks : List (List Nat)) (x : List α) (h : IsSpectrumOf [n1 + 1, n2 + 1] ks x) :
     statPiXY ⟨x, [n1 + 1, n2 + 1]⟩ = gPiXY n1 n2 ks := by
-  sorry
+  exact sg_pixy n1 n2 ks x h
 
 /-- f2 / f3 / f4 (computed on the normalised spectrum, as `sfs stat` does) = site averages of products of sample
     allele-frequency differences. -/
 theorem f2_def (ns : List Nat) (h2 : ns.length = 2) (hns : ∀ n ∈ ns, 0 < n) (ks : List (List Nat)) (hks : ks ≠ [])
     (x : List α) (h : IsSpectrumOf (shapeOf ns) ks x) :
     statF2 (normalized ⟨x, shapeOf ns⟩) = gF2 ns ks := by
-  sorry
+  exact sg_f2 ns ks x h
 
 theorem f3_def (ns : List Nat) (h3 : ns.length = 3) (hns : ∀ n ∈ ns, 0 < n) (ks : List (List Nat)) (hks : ks ≠ [])
     (x : List α) (h : IsSpectrumOf (shapeOf ns) ks x) :
     statF3 (normalized ⟨x, shapeOf ns⟩) = gF3 ns ks := by
-  sorry
+  exact sg_f3 ns ks x h
 
 theorem f4_def (ns : List Nat) (h4 : ns.length = 4) (hns : ∀ n ∈ ns, 0 < n) (ks : List (List Nat)) (hks : ks ≠ [])
     (x : List α) (h : IsSpectrumOf (shapeOf ns) ks x) :
     statF4 (normalized ⟨x, shapeOf ns⟩) = gF4 ns ks := by
-  sorry
+  exact sg_f4 ns ks x h
 
 /-- Hudson's Fst = ratio of the summed per-site numerators and denominators over the polymorphic sites. -/
 theorem fst_def (ns : List Nat) (h2 : ns.length = 2) (hns : ∀ n ∈ ns, 0 < n) (ks : List (List Nat)) (hks : ks ≠ [])
     (x : List α) (h : IsSpectrumOf (shapeOf ns) ks x) :
     statFst (normalized ⟨x, shapeOf ns⟩) = gFst ns ks := by
-  sorry
+  exact sg_fst ns ks x h h2 hns hks
 
 /-- KING, R0, R1 = ratios of two-individual genotype-pair counts. -/
 theorem king_def (ks : List (List Nat)) (x : List α) (h : IsSpectrumOf [3, 3] ks x) :
     statKing ⟨x, [3, 3]⟩ = gKing ks := by
-  sorry
+  exact sg_king ks x h
 
 theorem r0_def (ks : List (List Nat)) (x : List α) (h : IsSpectrumOf [3, 3] ks x) :
     statR0 ⟨x, [3, 3]⟩ = gR0 ks := by
-  sorry
+  exact sg_r0 ks x h
 
 theorem r1_def (ks : List (List Nat)) (x : List α) (h : IsSpectrumOf [3, 3] ks x) :
     statR1 ⟨x, [3, 3]⟩ = gR1 ks := by
-  sorry
+  exact sg_r1 ks x h
 
 /-! non-vacuity: 2 populations (4 and 2 chromosomes), 4 sites, one of them monomorphic -/
 example : IsSpectrumOf (α := Rat) [5, 3] [[1, 0], [4, 2], [1, 0], [2, 1]]
@@ -106,8 +109,12 @@ example : IsSpectrumOf (α := Rat) [5, 3] [[1, 0], [4, 2], [1, 0], [2, 1]]
   refine ⟨by decide, by decide, ?_⟩
   intro k hk
   have : k ∈ allIndices [5, 3] := by
-    sorry
-  sorry
+    exact List.mem_map.mpr ⟨flat [5, 3] k, List.mem_range.mpr (Sfs.flat_lt _ _ hk), Sfs.unflat_flat _ _ hk⟩
+  have hall : ∀ k ∈ allIndices [5, 3],
+      ([0, 0, 0, 2, 0, 0, 0, 1, 0, 0, 0, 0, 0, 0, 1] : List Rat).getD (flat [5, 3] k) 0
+        = ((([[1, 0], [4, 2], [1, 0], [2, 1]] : List (List Nat)).count k : Nat) : Rat) := by
+    decide +kernel
+  exact hall k this
 
 example : statPiXY (α := Rat) ⟨[0, 0, 0, 2, 0, 0, 0, 1, 0, 0, 0, 0, 0, 0, 1], [5, 3]⟩ = gPiXY 4 2 [[1, 0], [4, 2], [1, 0], [2, 1]] := by
   decide +kernel
